@@ -25,7 +25,13 @@ def observe(cfg, scitype, origin=0, fhvariant=0):
     tag = "c05"
     stubs.reset(tag)
 
+    # every fifth run: the whole series is lowered so that its LAST observation (after the updates) is exactly 0.0 --
+    # a count series ending in a zero; logged values <= 0.5 are raised again before they are compared with the tokens
+    zoff = (1000.0 + n - 1 + upd) if fhvariant % 5 == 2 else 0.0
+
     def yser(lo, hi):
+        if zoff:
+            return pd.Series([1000.0 + t - zoff for t in range(lo, hi)], index=pd.RangeIndex(lo + origin, hi + origin))
         if fhvariant % 4 == 1:      # count data: integer dtype
             return pd.Series([1000 + t for t in range(lo, hi)], index=pd.RangeIndex(lo + origin, hi + origin), dtype="int64")
         return pd.Series([1000.0 + t for t in range(lo, hi)], index=pd.RangeIndex(lo + origin, hi + origin))
@@ -64,9 +70,11 @@ def observe(cfg, scitype, origin=0, fhvariant=0):
     fits = [e for e in log if e["ev"] == "fit"]
     preds = [e for e in log if e["ev"] == "predict"]
     want_ndim = 2 if scitype == "tabular-regressor" else 3
+    def up(m):
+        return [[v + zoff if (zoff and v <= 0.5) else v for v in row] for row in m]
     o = {"rej": False, "nvars": 1 + nx,
-         "fits": [{"X": ints(e["X"]), "y": ints(e["y"]), "ydim": e["ydim"]} for e in fits],
-         "preds": [ints(e["X"])[0] for e in preds],
+         "fits": [{"X": ints(up(e["X"])), "y": ints(up(e["y"])), "ydim": e["ydim"]} for e in fits],
+         "preds": [ints(up(e["X"]))[0] for e in preds],
          "ret": [_i(v) for v in p.values], "index": [int(i) - origin for i in p.index]}
     # container shape promised for the scitype (numbers themselves are judged by TLC)
     for e in fits + preds:
@@ -74,7 +82,7 @@ def observe(cfg, scitype, origin=0, fhvariant=0):
             o["crash"] = "container shape %s for scitype %s" % (e["shape"], scitype)
     if hasattr(f.estimator, "ydim_"):
         o["crash"] = "the regressor handed to make_reduction was fitted in place (every strategy fits clones)"
-    if any(len(ints(e["X"])) != 1 for e in preds):
+    if any(len(e["X"]) != 1 for e in preds):
         o["crash"] = "predict called with several rows"
     return o
 
